@@ -36,11 +36,19 @@ def capStart (c : Caps) : Nat := match c.head? with | some (some (a, _)) => a | 
 
 def shiftCaps (k : Nat) (c : Caps) : Caps := c.map fun o => o.map fun (a, b) => (a + k, b + k)
 
+/-- the replaceValue of String.prototype.replace -/
+inductive Repl
+  | str (rv : List Nat)       -- a string: Table 22 `$` substitution applies
+  | report                    -- the harness's reporting function (result built from its arguments)
+  | const (ret : List Nat)    -- a function returning the constant string `ret`
+  deriving Repr, DecidableEq, Inhabited
+
 /-- one step of a call history on one RegExp object and one subject string -/
 inductive Step
   | exec | test | mtch | search
   | replaceS (repl : List Nat)        -- String.prototype.replace(re, string)   (repl: UTF-8 bytes / units)
   | replaceF                          -- String.prototype.replace(re, fixed reporting function)
+  | replaceK (ret : List Nat)         -- String.prototype.replace(re, function(){ return <ret> })   (a constant function)
   | split (limit : Option Nat)        -- limit already ToUint32'd
   | setLI (v : LI)
   deriving Repr, DecidableEq, Inhabited
